@@ -1,5 +1,6 @@
 CONSTANTS
   Fids = {0, 1}
+  Sample = 1
   NOFID = 99
   MaxH = 3
   NameLists <- NL_quick
